@@ -292,7 +292,7 @@ def cargo_build(ctx, release=False, bin=None):
     return os.path.join(target, "release" if release else "debug", bin), out
 
 
-def run_harness(binary, sub, lines, shards=NPROC, timeout=900, extra_args=()):
+def run_harness(binary, sub, lines, shards=NPROC, timeout=int(os.environ.get("VERIF_SHARD_TIMEOUT", "600")), extra_args=()):
     """Feed `lines` (one case per line) to `vh <sub>`; returns the output lines, one
     per case, in order.  Cases are sharded over processes; a crashed shard (abort)
     is re-run case by case so the offending case is identified."""
@@ -337,14 +337,20 @@ def run_harness(binary, sub, lines, shards=NPROC, timeout=900, extra_args=()):
             for i, l in zip(ch, ol):
                 results[i] = l
         else:
-            # shard died (abort / hang): run one by one
+            # shard died (abort / hang): run one by one with a short limit; after a few hangs the
+            # rest of the shard is not run (a change that makes the code hang would otherwise
+            # cost a minute per case)
+            hangs = 0
             for j, i in enumerate(ch):
                 if j < len(ol) - 1 and rc != "timeout":
                     results[i] = ol[j]
                     continue
+                if hangs >= 2:
+                    results[i] = "NOTRUN after repeated hangs"
+                    continue
                 try:
                     q = subprocess.run([binary] + list(extra_args), input=lines[i] + "\n", stdout=subprocess.PIPE,
-                                       stderr=subprocess.DEVNULL, text=True, timeout=60)
+                                       stderr=subprocess.DEVNULL, text=True, timeout=int(os.environ.get("VERIF_CASE_TIMEOUT", "45")))
                     l = [x for x in q.stdout.splitlines() if x.strip()]
                     if q.returncode == 0 and l:
                         results[i] = l[0]
@@ -352,6 +358,7 @@ def run_harness(binary, sub, lines, shards=NPROC, timeout=900, extra_args=()):
                         results[i] = "ABORT rc=%s" % q.returncode
                 except subprocess.TimeoutExpired:
                     results[i] = "HANG"
+                    hangs += 1
     return results
 
 
@@ -489,7 +496,9 @@ def finish(ctx, mod):
         ctx.say("KNOWN-FINDING: property=%s %s: %s" % (ctx.pid, fid, known[fid]["what"]))
     rc = 0
     nviol = 0
-    for kind, text, payload in ctx.violations:
+    # hangs/aborts first (they name the offending case), at most five replays per run
+    order = sorted(ctx.violations, key=lambda v: 0 if ('HANG' in v[1] or 'ABORT' in v[1] or 'PANIC' in v[1]) and 'NOTRUN' not in v[1] else (2 if 'NOTRUN' in v[1] else 1))
+    for kind, text, payload in order[:5]:
         payload = dict(payload)
         payload.update({"property": ctx.pid, "kind": kind, "what": text, "seed": ctx.seed, "tier": ctx.tier,
                         "replay_cmd": "./check %s --replay <this file>" % ctx.pid})
